@@ -62,6 +62,7 @@ def static_event(pp, tid, A, rnd):
             ev["pairs"].append({"what": what + "_raised", "kind": "str", "a": oa, "b": ob})
         else:
             ev["pairs"].append({"what": what, "kind": kind, "a": a, "b": b})
+    both("condensed", "str", lambda t: pp.condense_static_mods(t))      # first: condensing is a query, not an edit
     both("comp", "str", lambda t: json.dumps(comp8(pp.comp(t, ion_type=ion, charge=z, estimate_delta=True)), sort_keys=True))
     both("mass", "fix", lambda t: fix(pp.mass(t, charge=z, ion_type=ion, monoisotopic=mono)))
     both("fragment_masses", "fixbag",
